@@ -677,3 +677,75 @@ def writer_push_sequence(c):
         return [r.fields["_parent"] is w, c.eq(r.fields["_tag"], want_tag), Z(c.len(r.fields["_data"])) == 0]
 
     c.ensures("child-writer-with-the-sequence-tag", ok)
+
+
+# ------------------------------------------------------------------------------------------------ the remaining one-line wrappers
+def _writer_method(method):
+    def spec(c):
+        """write_X appends exactly the DER TLV of the value to the writer's buffer"""
+        name, tag, value, enc = _value_case(c, "v")
+        if name != "read_" + method[len("write_"):]:
+            raise PathEnd()
+        before = c.fresh(T.bytes(kind="bytearray"), "data")
+        w = SObj(cls_(c, "ASN1Writer"), {"_data": before, "_tag": None, "_parent": None})
+        old = SBytes(R.Rope(before.rope.segs))
+        c.param("self", T.const(w))
+        c.param("value", T.const(value))
+        c.param("tag", T.const(tag))
+        c.raises_only(set())
+        c.post("appends-exactly-the-tlv", lambda: c.eq(w.fields["_data"], c.rope(old, enc)))
+
+    return spec
+
+
+for _m in ("write_boolean", "write_generalized_time", "write_octet_string", "write_utf8_string"):
+    REG.contract(f"dpapi_ng._asn1.ASN1Writer.{_m}", props=["C07"], inline=True)(_writer_method(_m))
+
+
+def _enum_case(c):
+    v = c.fresh(T.Int, "enum_value")
+    m = int_case(c, v, "enum_octets", 3)
+    tag = some_tag(c, "enum_tag", few=True)
+    return v, tag, tlv(c, tag_ident(c, tag, 10), derint_rope(c, v, m))
+
+
+@REG.contract("dpapi_ng._asn1.ASN1Writer.write_enumerated", props=["C07"], inline=True)
+def writer_write_enumerated(c):
+    v, tag, enc = _enum_case(c)
+    before = c.fresh(T.bytes(kind="bytearray"), "data")
+    w = SObj(cls_(c, "ASN1Writer"), {"_data": before, "_tag": None, "_parent": None})
+    old = SBytes(R.Rope(before.rope.segs))
+    c.param("self", T.const(w))
+    c.param("value", T.const(v))
+    c.param("tag", T.const(tag))
+    c.raises_only(set())
+    c.post("appends-exactly-the-tlv", lambda: c.eq(w.fields["_data"], c.rope(old, enc)))
+
+
+@REG.contract("dpapi_ng._asn1.ASN1Reader.read_enumerated", props=["C07"], inline=True)
+def reader_read_enumerated(c):
+    from pyvc.values import ClassRef
+
+    v, tag, enc = _enum_case(c)
+    c.assume(z3.And(Z(v) >= 0, Z(v) <= 3))  # the members of the enumeration used here (TagClass)
+    rest = c.fresh(T.Bytes, "rest")
+    rd = reader_obj(c, c.rope(enc, rest))
+    c.param("self", T.const(rd))
+    c.param("enum_type", T.const(ClassRef(cls_(c, "TagClass"))))
+    c.param("tag", T.const(tag))
+    c.raises_only(set())
+    c.ensures("returns-the-member-for-the-encoded-value", lambda r: [isinstance(r, SEnum) and r.cls.name == "TagClass", Z(c.I.as_int(r)) == Z(v)])
+    c.post("consumes-exactly-the-encoded-bytes", lambda: c.eq(SBytes(c.I.rope_of(rd.fields["_view"])), rest))
+
+
+@REG.contract("dpapi_ng._asn1.ASN1Reader.skip_value", props=["C07"], inline=True)
+def reader_skip_value(c):
+    """skip_value(peek_header()) leaves exactly the bytes after the next TLV"""
+    name, tag, want, enc = _value_case(c, "v")
+    rest = c.fresh(T.Bytes, "rest")
+    rd = reader_obj(c, c.rope(enc, rest))
+    c.param("self", T.const(rd))
+    hdr = c.I.call_repo(c.I.P.find_func("dpapi_ng._asn1.ASN1Reader.peek_header"), [rd], {})
+    c.param("header", T.const(hdr))
+    c.raises_only(set())
+    c.post("skips-exactly-the-encoded-bytes", lambda: c.eq(SBytes(c.I.rope_of(rd.fields["_view"])), rest))
